@@ -104,3 +104,19 @@ package metric
 //@   ghost@call funcvalue#* : aggCalls = aggCalls + 1
 //@   assert@return#* : aggCalls == len(i.measures)
 //@   loop#1 invariant aggCalls == $k
+
+// ======================================================================== C02/C08 collection: every instrument is computed into its own output slot
+// produce: the scratch aggregation handed to an instrument's compute function is the one that sits in the output slot the result is
+// written to (slot j of scope i) - reading the scratch from one slot and storing the result into another would let two instruments
+// share a backing array across collections; name, description and unit stored with a result are that instrument's
+//@ func (p *pipeline) produce(ctx context.Context, rm *metricdata.ResourceMetrics) (err error)
+//@   prop C02 C08
+//@   acquires p.Mutex
+//@   overflow assumed
+//@   unchecked frame,no-panic callbacks, container/list, slice reuse helper and the compute functions are outside the contracts
+//@   requires p != nil && rm != nil
+//@   assert@call compAgg#* : *$arg0 === rm.ScopeMetrics[i].Metrics[j].Data
+//@   assert@store Data#* : $val === data
+//@   assert@store Name#* : $val == inst.name
+//@   assert@store Description#* : $val == inst.description
+//@   assert@store Unit#* : $val == inst.unit
